@@ -104,7 +104,7 @@ impl Prop for C07 {
         ]
     }
     fn cases(&self, tier: Tier) -> u64 {
-        tier.pick(40_000, 800_000)
+        tier.pick(300000, 3000000)
     }
     fn choice_len(&self) -> usize {
         8000
